@@ -285,7 +285,7 @@ CLAIMS = {
         'whole emitted Schema Object is compared with the model on scalar nodes at the edges of every rule and on random trees with references.',
    note='Trusted: Coq kernel; the validator (jsonschema 4.26, formats not enforced, 2000-digit decimal context) and the well-formedness rules in '
         'lib/oracles/oas_validate.py; the C01 oracle for "still accepted"; harness; `inst` (the values a schema accepts) is the documented meaning '
-        'of a JSight schema, not code of this library. Outside the model (validator only): key shortcuts, '
+        'of a JSight schema, not code of this library. Key shortcuts are in the converter model and in C08_ref_sound (their example, which needs the key type\'s example, is judged by the validator only). Outside the model (validator only): '
         'allOf, the cut-off of Example() on recursive types (C06 model), formats and patterns. Known finding F08b (allOf next to additionalProperties: false) is pinned by the existing tests and '
         'not repaired; F08c (multipleOf in float64) was found by this tie and repaired. No axioms.',
    technique='Coq soundness theorems of the schema->Schema Object translation (scalar nodes in full, trees with references to registered types) tied by correspondence + translation validation by an independent validator',
